@@ -236,7 +236,7 @@ func vRespSetup() (*Request, *ResponseWriter, func() string, int64) {
 	c, err := newConn(context.Background(), 7, nc, vLogger(), vMux())
 	vAssume(err == nil)
 	r := &Request{ID: rid, conn: c, message: &SimpleBindMessage{baseMessage: baseMessage{id: id}}}
-	w, err := newResponseWriter(c.writer, &c.writerMu, c.logger, c.connID, rid)
+	w, err := newResponseWriter(c.writer, &c.writerMu, c.logger, int(c.connID), rid)
 	vAssume(err == nil)
 	return r, w, func() string { return string(vConnWritten(nc)) }, id
 }
